@@ -212,7 +212,7 @@ impl<'a> Env<'a> {
 }
 
 /// One conversion of one input: expectation from the statement, actual from the crate.
-fn eval(op: Op, env: &Env, input: u32) -> Result<Info, (&'static str, String)> {
+fn eval(op: Op, env: &Env, input: u32, verbose: bool) -> Result<Info, (&'static str, String)> {
     let mut info = Info::default();
     let rgb_in = unpack(input);
     let real_rgb = RgbColor(rgb_in.0, rgb_in.1, rgb_in.2);
@@ -273,6 +273,9 @@ fn eval(op: Op, env: &Env, input: u32) -> Result<Info, (&'static str, String)> {
         Err(m) => return Err(("panic", format!("{}({}) panicked: {m}", op.name(), show_input(op, input)))),
     };
     if actual != expect {
+        if !verbose {
+            return Err((clause, String::new()));
+        }
         let detail = match (op, expect, actual) {
             (Op::RgbToAnsi | Op::ColorRgbToAnsi, Val::Idx(e), Val::Idx(a)) if a < 16 => {
                 format!(" (distance to expected entry {:?} = {}, to returned entry {:?} = {})", env.pal[e], color::distance(rgb_in, env.pal[e]), env.pal[a], color::distance(rgb_in, env.pal[a]))
@@ -344,46 +347,49 @@ impl Stat {
     }
 }
 
+/// at most this many violations per block of inputs are recorded individually; the rest are only counted
+const PER_BLOCK: usize = 16;
+
+fn run_block(op: Op, palname: &str, env: &Env, inputs: impl Iterator<Item = u32>, col: &Collector) -> Stat {
+    let keep = !matches!(op, Op::ColorRgbToRgb);
+    let mut st = Stat::default();
+    let mut recorded = 0usize;
+    let mut counted: Vec<(&'static str, u64)> = vec![];
+    for v in inputs {
+        match eval(op, env, v, recorded < PER_BLOCK) {
+            Ok(i) => st.add(i, keep),
+            Err((clause, msg)) => {
+                st.evals += 1;
+                if recorded < PER_BLOCK {
+                    recorded += 1;
+                    col.push(finding(op, palname, env.pal, v, clause, msg));
+                } else if let Some(e) = counted.iter_mut().find(|(c, _)| *c == clause) {
+                    e.1 += 1;
+                } else {
+                    counted.push((clause, 1));
+                }
+            }
+        }
+    }
+    for (clause, n) in counted {
+        col.add_count(op.name(), clause, n);
+    }
+    st
+}
+
 /// all 2^24 RGB inputs through `op`
 fn sweep_rgb(op: Op, palname: &str, env: &Env, col: &Collector) -> Stat {
-    let keep = !matches!(op, Op::ColorRgbToRgb);
     (0..256u32 * 16)
         .into_par_iter()
         .map(|blk| {
-            let mut st = Stat::default();
             let lo = blk << 12;
-            for v in lo..lo + (1 << 12) {
-                match eval(op, env, v) {
-                    Ok(i) => st.add(i, keep),
-                    Err((clause, msg)) => {
-                        st.evals += 1;
-                        col.push(finding(op, palname, env.pal, v, clause, msg));
-                    }
-                }
-            }
-            st
+            run_block(op, palname, env, lo..lo + (1 << 12), col)
         })
         .reduce(Stat::default, Stat::merge)
 }
 
 fn sweep_list(op: Op, palname: &str, env: &Env, inputs: &[u32], col: &Collector) -> Stat {
-    let keep = !matches!(op, Op::ColorRgbToRgb);
-    inputs
-        .par_chunks(4096)
-        .map(|ch| {
-            let mut st = Stat::default();
-            for &v in ch {
-                match eval(op, env, v) {
-                    Ok(i) => st.add(i, keep),
-                    Err((clause, msg)) => {
-                        st.evals += 1;
-                        col.push(finding(op, palname, env.pal, v, clause, msg));
-                    }
-                }
-            }
-            st
-        })
-        .reduce(Stat::default, Stat::merge)
+    inputs.par_chunks(4096).map(|ch| run_block(op, palname, env, ch.iter().copied(), col)).reduce(Stat::default, Stat::merge)
 }
 
 fn reversed(p: &Pal) -> Pal {
@@ -608,7 +614,7 @@ fn main_check(ctx: &Ctx) -> Outcome {
     {
         let env = Env::new(&color::VGA, &xc);
         for (op, v) in [(Op::RgbToAnsi, pack((170, 85, 0))), (Op::RgbToAnsi, pack((100, 100, 100))), (Op::RgbToXterm, pack((1, 2, 3))), (Op::XtermToAnsi, 196), (Op::XtermToRgb, 3)] {
-            let r = eval(op, &env, v);
+            let r = eval(op, &env, v, true);
             out.push_sample(json!({"function": op.name(), "palette": "VGA", "input": show_input(op, v), "result": r.as_ref().map(|i| i.out).ok(), "exact_entry": r.as_ref().map(|i| i.exact).ok()}));
         }
     }
@@ -634,7 +640,7 @@ fn replay(v: &serde_json::Value) -> Result<(), String> {
             }
             let xc = xterm_cands();
             let env = Env::new(&pal, &xc);
-            eval(op, &env, v["input"].as_u64().ok_or("missing input")? as u32).map(|_| ()).map_err(|(c, m)| format!("{c}: {m}"))
+            eval(op, &env, v["input"].as_u64().ok_or("missing input")? as u32, true).map(|_| ()).map_err(|(c, m)| format!("{c}: {m}"))
         }
         k => Err(format!("unknown replay kind {k}")),
     }
